@@ -145,6 +145,8 @@ def install(I, M, attractor_model=None):
             if name == 'symbolic_context': return Ptr(Cell(CtxObj(M)))
             if name == 'get_variable_name': return RString([ord(ch) for ch in M.names[args[1]]])
             if name == 'as_network': return Agg('Option', 1, [Ptr(Cell(Opaque('network')))])
+            if name == 'num_vars': return M.n
+            if name == 'mk_unit_colors' or name == 'unit_colors': raise Unsupported('colour sets are not modelled')
             if name == 'with_custom_context':
                 # unit := unit_bdd & regulation constraints (= the valid colours of the model); Err when empty
                 nu = gg(args[2]) & M.unit
@@ -164,6 +166,18 @@ def install(I, M, attractor_model=None):
             if name == 'extra_state_variables': return Ptr(Cell(RVec([M.pos(args[1], j + 1) for j in range(M.k)])))
             if name == 'state_variables': return Ptr(Cell(RVec(M.state_bits())))
             if name == 'as_canonical_context': return CtxObj(M, True)
+            if name == 'num_extra_state_variables': return M.n * M.k
+            if name == 'num_state_variables': return M.n
+            if name == 'all_extra_state_variables': return Ptr(Cell(RVec(M.copy_bits())))
+            if name == 'get_state_variable': return M.pos(args[1], 0)
+            if name == 'get_extra_state_variable':
+                if args[2] >= M.k: raise Panic('index out of bounds: extra state variable')
+                return M.pos(args[1], args[2] + 1)
+            if name == 'network_variables': return SeqIter(list(range(M.n)))
+            if name == 'get_network_variable_name': return RString([ord(ch) for ch in M.names[args[1]]])
+            if name == 'mk_extra_state_variable_is_true':
+                if args[2] >= M.k: raise Panic('index out of bounds: extra state variable')
+                return M.var_tt(M.pos(args[1], args[2] + 1))
             if name == 'transfer_from':
                 b = gg(args[1])
                 if I.truth(M.independent_of_copies(b)): return Agg('Option', 1, [b])
